@@ -306,20 +306,44 @@ func sxNodes(x SX) ([]*xnode, error) {
 
 type c19Model struct {
 	Hang, Rejected                  bool
+	Brief                           bool // only Tree (of the variant asked for) is set
 	Tree, TreeFixed                 *xnode
-	Flat, SpecAsIs, Spec, FlatFixed []*xnode
+	Flat, SpecAsIs, Spec, FlatFixed []*xnode // Spec: the intended meaning (grid positions by the loop in force)
+	SpecAll                         []*xnode // the specification of the model with every proposed fix
+	RejectedAll                     bool
 	Guard                           bool
 }
 
-const c19Fuel = 3000
+const c19Fuel = 12000 // gridn 0.01 needs 10001 rounds
 
 // c19UseFixed selects the model the implementation is compared with: the model
 // in force (`cur` in Svg.v = /repo HEAD, default) or the model with every
 // proposed fix (`all`; after the remaining diffs have been applied: C19_MODEL=fixed).
 func c19UseFixed() bool { return os.Getenv("C19_MODEL") == "fixed" }
 
+// a gridn unit below this draws more than 2000 lines: the model is then asked
+// for its render tree only (encoding seven flattened copies takes seconds)
+func cmdsLargeGrid(cmds []SX) bool {
+	for _, c := range cmds {
+		if c.L[0].S == "gridn" {
+			if u := sxF(c.L[1]); u > 0 && u < 0.1 {
+				return true
+			}
+		}
+	}
+	return false
+}
+
 func c19AskModel(model *Model, cmds []SX) (*c19Model, error) {
-	ans, err := model.Ask(Lst(Int(c19Fuel), LstOf(cmds)).String())
+	q := Lst(Int(c19Fuel), LstOf(cmds))
+	if cmdsLargeGrid(cmds) {
+		which := "cur"
+		if c19UseFixed() {
+			which = "all"
+		}
+		q = Lst(Int(c19Fuel), LstOf(cmds), Sym(which))
+	}
+	ans, err := model.Ask(q.String())
 	if err != nil {
 		return nil, err
 	}
@@ -327,13 +351,24 @@ func c19AskModel(model *Model, cmds []SX) (*c19Model, error) {
 	if err != nil {
 		return nil, fmt.Errorf("model output: %v", err)
 	}
-	if x.Kind == "lst" && len(x.L) == 1 && x.L[0].S == "hang" {
-		return &c19Model{Hang: true}, nil
+	if x.Kind == "lst" && len(x.L) == 4 && x.L[0].S == "brief" {
+		m := &c19Model{Brief: true, Rejected: x.L[2].S == "true", RejectedAll: x.L[3].S == "true", Guard: true}
+		if m.Tree, err = sxNode(x.L[1]); err != nil {
+			return nil, err
+		}
+		m.TreeFixed = m.Tree
+		return m, nil
 	}
-	if x.Kind != "lst" || len(x.L) != 9 || x.L[0].S != "ok" {
+	if x.Kind == "lst" && len(x.L) == 3 && x.L[0].S == "hang" {
+		return &c19Model{Hang: true, Rejected: x.L[1].S == "true", RejectedAll: x.L[2].S == "true"}, nil
+	}
+	if x.Kind != "lst" || len(x.L) != 11 || x.L[0].S != "ok" {
 		return nil, fmt.Errorf("model output: %.200s", ans)
 	}
-	m := &c19Model{Guard: x.L[5].S == "true", Rejected: x.L[8].S == "true"}
+	m := &c19Model{Guard: x.L[5].S == "true", Rejected: x.L[9].S == "true", RejectedAll: x.L[10].S == "true"}
+	if m.SpecAll, err = sxNodes(x.L[8]); err != nil {
+		return nil, err
+	}
 	if m.Tree, err = sxNode(x.L[1]); err != nil {
 		return nil, err
 	}
@@ -431,6 +466,51 @@ func applyCmd(rt *svg.GraphicsPlatform, c SX) {
 // gridnFunc (since 292a02f) rejects such a unit with ErrBadArguments; before, the loop never ended.
 func gridUnitHangs(u float64) bool { return u <= 0 } // NaN: false (the loop ends after one round)
 
+// c19MinGridUnit is the documented minimum of proposed_fixes/C19-gridn-tiny-unit.diff.
+const c19MinGridUnit = 0.01
+
+// a positive unit below the minimum: the accumulating loop of Gridn needs
+// 1000/(10*unit) rounds (1e8 for 1e-6) or stalls for good once 10*unit is below
+// the resolution of the loop variable (1e-17): such a call must be rejected
+func gridUnitTiny(u float64) bool { return u > 0 && u < c19MinGridUnit }
+
+var (
+	c19BoundOnce sync.Once
+	c19Bound     bool
+)
+
+// c19BoundInSource: has the gridn bound landed in the tree under test?
+func c19BoundInSource() bool {
+	c19BoundOnce.Do(func() {
+		_, c19Bound = readMinGridUnit(filepath.Join(c19EvyRepoDir(), "pkg", "evaluator", "builtin.go"))
+	})
+	return c19Bound
+}
+
+func cmdsTiny(cmds []SX) (float64, bool) {
+	for _, c := range cmds {
+		if c.L[0].S == "gridn" {
+			if u := sxF(c.L[1]); gridUnitTiny(u) {
+				return u, true
+			}
+			if gridUnitHangs(sxF(c.L[1])) {
+				return 0, false // rejected before the tiny one is reached
+			}
+		}
+	}
+	return 0, false
+}
+
+// with the bound: `if !(unit.V >= minGridUnit)` rejects small units, zero, negatives and NaN
+func cmdsBelowMin(cmds []SX) bool {
+	for _, c := range cmds {
+		if c.L[0].S == "gridn" && !(sxF(c.L[1]) >= c19MinGridUnit) {
+			return true
+		}
+	}
+	return false
+}
+
 func cmdsHang(cmds []SX) bool {
 	for _, c := range cmds {
 		if c.L[0].S == "gridn" && gridUnitHangs(sxF(c.L[1])) {
@@ -483,6 +563,11 @@ var c19Families = []string{"Tahoma, sans-serif", "\"Fira Code\", monospace", "se
 var c19Baselines = []string{"top", "middle", "bottom", "alphabetic"}
 var c19Aligns = []string{"left", "center", "right"}
 var c19GridUnits = []numTxt{c19Lit("10"), c19Lit("20"), c19Lit("25"), c19Lit("7.5"), c19Lit("50"), c19Lit("100"), c19Lit("1000"), c19Lit("2"), {"(0/0)", math.NaN()}, {"(1/0)", math.Inf(1)}, c19Lit("1000000000000000000000000000000")}
+
+// positive units around the proposed minimum 0.01: far below (the loop stalls or
+// needs 1e8.. rounds), just below, at, just above
+var c19TinyUnits = []numTxt{c19Lit("0.00000000000000001"), c19Lit("0." + strings.Repeat("0", 323) + "5"), c19Lit("0.0000000000001"), c19Lit("0.000001"),
+	c19Lit("0.0099999"), c19Lit("0.01"), c19Lit("0.0100001"), c19Lit("0.001")}
 var c19HangUnits = []numTxt{c19Lit("0"), {"(0*(0-1))", math.Copysign(0, -1)}, {"(0-1)", -1}, {"(0-10)", -10}, {"(0-1/0)", math.Inf(-1)}}
 
 // a generated command: the S-expression and its evy source line
@@ -516,7 +601,7 @@ func c19Pick(rng *rand.Rand, l []string) string { return l[rng.Intn(len(l))] }
 
 // genCmd: api = true allows values the evaluator's wrappers would reject
 // (arbitrary baseline/align strings, non-positive font size) since the platform API accepts them.
-func genCmd(rng *rand.Rand, api bool, allowHang bool) gcmd {
+func genCmd(rng *rand.Rand, api bool, unitPool []numTxt) gcmd {
 	two := func(name string) gcmd {
 		a, b := c19GenNum(rng), c19GenNum(rng)
 		return gcmd{Lst(Sym(name), Float(a.v), Float(b.v)), name + " " + a.src + " " + b.src}
@@ -573,8 +658,8 @@ func genCmd(rng *rand.Rand, api bool, allowHang bool) gcmd {
 			return gcmd{Lst(Sym("gridn"), Float(10), Str("hsl(0deg 100% 0% / 50%)")), "grid"}
 		}
 		u := c19GridUnits[rng.Intn(len(c19GridUnits))]
-		if allowHang {
-			u = c19HangUnits[rng.Intn(len(c19HangUnits))]
+		if unitPool != nil {
+			u = unitPool[rng.Intn(len(unitPool))]
 		}
 		c := c19Pick(rng, c19Colors)
 		return gcmd{Lst(Sym("gridn"), Float(u.v), Str(c)), "gridn " + u.src + " " + evyStr(c)}
@@ -664,18 +749,19 @@ func genCmd(rng *rand.Rand, api bool, allowHang bool) gcmd {
 	}
 }
 
-func genHistory(rng *rand.Rand, n int, api bool, hang bool) []gcmd {
+// genHistory: with a unitPool one call (at a random place) is a gridn whose unit is drawn from the pool.
+func genHistory(rng *rand.Rand, n int, api bool, unitPool []numTxt) []gcmd {
 	out := make([]gcmd, 0, n)
 	hangAt := -1
-	if hang {
+	if unitPool != nil {
 		hangAt = rng.Intn(n)
 	}
 	for i := 0; i < n; i++ {
-		c := genCmd(rng, api, false)
+		c := genCmd(rng, api, nil)
 		if i == hangAt {
-			c = genCmd(rng, api, true)
+			c = genCmd(rng, api, unitPool)
 			for c.sx.L[0].S != "gridn" || c.evy == "grid" {
-				c = genCmd(rng, api, true)
+				c = genCmd(rng, api, unitPool)
 			}
 		}
 		out = append(out, c)
@@ -768,7 +854,7 @@ func diffShapes(impl, spec []*xnode, guard bool) map[string]string {
 
 type c19Input struct {
 	Case    string `json:"case"`              // S-expression list of commands
-	Mode    string `json:"mode"`              // api | binary | gridn-rejected
+	Mode    string `json:"mode"`              // api | binary | gridn-rejected | gridn-tiny
 	Program string `json:"program,omitempty"` // evy source (binary / gridn-rejected)
 }
 
@@ -807,15 +893,22 @@ func c19CheckDoc(doc []byte, cmds []SX, m *c19Model, in c19Input, r *Result) {
 	}
 	tree := canonTree(raw, true)
 	r.Validated++
+	if m.Brief {
+		r.Dist("cc:tree-only(large grid)")
+		if tree.canon() != m.Tree.canon() {
+			viol("correspondence", "svg-tree-differs-from-model", "the element tree written by the implementation differs from the model's render tree (large grid: tree comparison only)", nil)
+		}
+		return
+	}
 	if c19UseFixed() {
 		if tree.canon() != m.TreeFixed.canon() {
 			viol("correspondence", "svg-tree-differs-from-fixed-model", "the element tree written by the implementation differs from the fixed model's render tree",
 				map[string]any{"impl_tree": tree.canon(), "model_tree": m.TreeFixed.canon()})
 		}
-		if canonList(m.FlatFixed) != canonList(m.Spec) {
+		if canonList(m.FlatFixed) != canonList(m.SpecAll) {
 			viol("correspondence", "model-theorem-fixed", "extracted model contradicts C19_svg_shows_what_was_drawn_fixed", nil)
 		}
-		for key, detail := range diffShapes(flattenTree(tree), m.Spec, true) {
+		for key, detail := range diffShapes(flattenTree(tree), m.SpecAll, true) {
 			viol("property", key, "the flattened SVG does not show what was drawn: "+detail, nil)
 		}
 		return
@@ -835,7 +928,7 @@ func c19CheckDoc(doc []byte, cmds []SX, m *c19Model, in c19Input, r *Result) {
 	if m.Guard && canonList(m.Flat) != canonList(m.SpecAsIs) {
 		viol("correspondence", "model-theorem-asis", "extracted model contradicts C19_svg_shows_what_was_drawn", nil)
 	}
-	if canonList(m.FlatFixed) != canonList(m.Spec) {
+	if canonList(m.FlatFixed) != canonList(m.SpecAll) {
 		viol("correspondence", "model-theorem-fixed", "extracted model contradicts C19_svg_shows_what_was_drawn_fixed", nil)
 	}
 	if m.Guard {
@@ -910,7 +1003,26 @@ type c19BinResult struct {
 }
 
 // runBinary runs `evy run --svg-out out.svg prog.evy` under timeout and ulimit -v.
-func runBinary(prog string, timeoutS int) (c19BinResult, error) {
+var (
+	c19BinCacheMu sync.Mutex
+	c19BinCache   = map[string]c19BinResult{}
+)
+
+func runBinary(prog string, timeoutS int) (res c19BinResult, err error) {
+	key := fmt.Sprintf("%d\x00%s", timeoutS, prog)
+	c19BinCacheMu.Lock()
+	if r, ok := c19BinCache[key]; ok {
+		c19BinCacheMu.Unlock()
+		return r, nil
+	}
+	c19BinCacheMu.Unlock()
+	defer func() {
+		if err == nil {
+			c19BinCacheMu.Lock()
+			c19BinCache[key] = res
+			c19BinCacheMu.Unlock()
+		}
+	}()
 	bin, err := evyBinary()
 	if err != nil {
 		return c19BinResult{}, err
@@ -932,7 +1044,7 @@ func runBinary(prog string, timeoutS int) (c19BinResult, error) {
 	cmd.Stderr = &stderr
 	cmd.Stdout = io.Discard
 	runErr := cmd.Run()
-	res := c19BinResult{stderr: stderr.String()}
+	res = c19BinResult{stderr: stderr.String()}
 	if ee, ok := runErr.(*exec.ExitError); ok {
 		res.exit = ee.ExitCode()
 		if res.exit == -1 || res.exit == 137 || res.exit == 124 {
@@ -970,17 +1082,33 @@ func c19CaseSX(cmds []SX, in c19Input, model *Model, r *Result) {
 		return
 	}
 	rejectExpected := cmdsHang(cmds) // a gridn unit <= 0: BadArguments before the platform is called
+	tinyUnit, tiny := cmdsTiny(cmds)
+	if c19BoundInSource() {
+		// the bound has landed: units below it and NaN are BadArguments as well
+		mRej := m.Rejected
+		if c19UseFixed() {
+			mRej = m.RejectedAll
+		}
+		rejectExpected = mRej
+		if want := cmdsBelowMin(cmds); mRej != want {
+			r.Violate(Violation{Kind: "correspondence", Key: "model-rejected-class", Detail: fmt.Sprintf("model rejected=%v, harness rule (unit not >= %v): %v", mRej, c19MinGridUnit, want), Input: in})
+			return
+		}
+	} else if tiny {
+		c19TinyUnbounded(tinyUnit, cmds, m, in, r)
+		return
+	}
 	if m.Hang {
 		r.Violate(Violation{Kind: "correspondence", Key: "model-out-of-fuel", Detail: "the model's gridn loop did not end within the fuel", Input: in})
 		return
 	}
-	if m.Rejected != rejectExpected {
+	if !c19BoundInSource() && m.Rejected != rejectExpected {
 		r.Violate(Violation{Kind: "correspondence", Key: "model-rejected-class", Detail: fmt.Sprintf("model rejected=%v, history has a gridn unit <= 0: %v", m.Rejected, rejectExpected), Input: in})
 		return
 	}
 	switch in.Mode {
 	case "api":
-		if rejectExpected {
+		if rejectExpected || tiny {
 			return // the platform API has no check: never run in-process (the loop would not end)
 		}
 		doc, p := c19RunAPI(cmds)
@@ -992,7 +1120,7 @@ func c19CaseSX(cmds []SX, in c19Input, model *Model, r *Result) {
 		if len(r.Samples) < 2 {
 			r.Sample(map[string]any{"mode": "api", "case": in.Case, "svg": string(doc)})
 		}
-	case "binary", "gridn-rejected":
+	case "binary", "gridn-rejected", "gridn-tiny":
 		to := 10
 		if rejectExpected {
 			to = 5
@@ -1006,6 +1134,9 @@ func c19CaseSX(cmds []SX, in c19Input, model *Model, r *Result) {
 			key, what := "evy-run-timeout", "evy run --svg-out did not terminate"
 			if rejectExpected {
 				key, what = "gridn-nonpositive-unit-hangs", "evy run --svg-out did not terminate: gridn with unit <= 0 reached the platform loop, which never advances"
+				if tiny {
+					key, what = "gridn-tiny-unit-does-not-terminate", "evy run --svg-out did not terminate: gridn with a positive unit below the minimum reached the platform loop"
+				}
 			}
 			r.Violate(Violation{Kind: "property", Key: key, Detail: what, Input: in, Impl: map[string]any{"stderr_tail": c19Tail(res.stderr, 300)}})
 			return
@@ -1023,6 +1154,51 @@ func c19CaseSX(cmds []SX, in c19Input, model *Model, r *Result) {
 		if len(r.Samples) < 4 {
 			r.Sample(map[string]any{"mode": in.Mode, "program": in.Program, "svg": string(res.doc)})
 		}
+	}
+}
+
+// c19TinyUnbounded: a gridn call with a positive unit below the minimum on a
+// tree that does not have the bound.  Oracle: the call must be rejected (exit 1,
+// document of the calls before it).  Only ever run through the binary under
+// timeout/ulimit; a timeout is the finding.
+func c19TinyUnbounded(u float64, cmds []SX, m *c19Model, in c19Input, r *Result) {
+	if in.Mode == "api" || in.Program == "" {
+		return // never in-process: the loop may not end
+	}
+	to := 3
+	if u >= 1e-4 {
+		to = 30 // ends after 1000/(10u) <= 1e6 rounds: slow and large, but it ends
+	}
+	res, err := runBinary(in.Program, to)
+	if err != nil {
+		r.Violate(Violation{Kind: "correspondence", Key: "evy-binary", Detail: err.Error(), Input: in})
+		return
+	}
+	switch {
+	case res.timedOut:
+		r.Dist("termination:gridn-tiny-timeout")
+		r.Violate(Violation{Kind: "property", Key: "gridn-tiny-unit-does-not-terminate",
+			Detail: fmt.Sprintf("evy run --svg-out did not terminate within %d s (killed; %d bytes of SVG): gridn with the positive unit %v is accepted, and the loop `for i := 0.0; i <= 1000; i += unit` needs %.3g rounds or stalls (i + unit == i)",
+				to, len(res.doc), u, 1000/(10*u)),
+			Input: in, Impl: map[string]any{"stderr_tail": c19Tail(res.stderr, 300)}})
+	case res.exit == 1 && strings.Contains(res.stderr, "gridn"):
+		// rejected although the translator did not find the bound: compare with the fixed model's prefix
+		r.Dist("termination:gridn-tiny-rejected")
+		if !m.RejectedAll {
+			r.Violate(Violation{Kind: "correspondence", Key: "model-rejected-class", Detail: "the binary rejects the unit, the model with the bound does not", Input: in})
+		}
+	case res.exit != 0:
+		r.Violate(Violation{Kind: "correspondence", Key: "evy-run-exit", Detail: fmt.Sprintf("exit %d: %s", res.exit, c19Tail(res.stderr, 300)), Input: in})
+	default:
+		// accepted and it ended (units not far below the minimum): the document must still be right
+		r.Dist("termination:gridn-tiny-accepted-and-ended")
+		if m.Hang {
+			if _, err := parseSVG(res.doc); err != nil {
+				r.Violate(Violation{Kind: "property", Key: "svg-not-well-formed", Detail: err.Error(), Input: in})
+			}
+			return
+		}
+		c19CheckDoc(res.doc, cmds, m, in, r)
 	}
 }
 
@@ -1098,6 +1274,7 @@ func runC19(cfg Config, r *Result) {
 	r.Rule = "random histories of graphics calls (move/line/rect/circle/clear/poly/ellipse/text/gridn/grid + width/color/colour/stroke/fill/dash/linecap/font; " +
 		"arguments from nice and degenerate pools: 0, -0, negative, NaN (0/0), +-Inf, 1e30, 1e-30; empty and markup-like strings) " +
 		"run on svg.GraphicsPlatform in-process (mode api), as evy programs through the built binary `evy run --svg-out` (mode binary), " +
+		"with a positive gridn unit around the proposed minimum 0.01 (1e-17, 5e-324, 1e-13, 1e-6, 0.0099999, 0.01, 0.0100001; thorough: 0.001) through the binary under a short timeout (mode gridn-tiny), " +
 		"and with a gridn unit <= 0 through the binary under timeout/ulimit (mode gridn-rejected: exit 1, document of the calls before it); non-trivial = at least 2 drawing calls with a style change after a drawing call; " +
 		"distinct = distinct (mode, command list)"
 	if cfg.Replay != "" {
@@ -1143,7 +1320,7 @@ func runC19(cfg Config, r *Result) {
 		if i%10 == 0 {
 			n = 1 + cfg.Rng.Intn(4) // short histories: lone elements are frequent
 		}
-		c19Case(genHistory(cfg.Rng, n, true, false), "api", model, r)
+		c19Case(genHistory(cfg.Rng, n, true, nil), "api", model, r)
 	}
 	tAPI := time.Since(t0)
 	t0 = time.Now()
@@ -1158,12 +1335,36 @@ func runC19(cfg Config, r *Result) {
 	}()
 	nBin := cfg.N(24, 300)
 	for i := 0; i < nBin; i++ {
-		c19Case(genHistory(cfg.Rng, 1+cfg.Rng.Intn(maxLen), false, false), "binary", model, r)
+		c19Case(genHistory(cfg.Rng, 1+cfg.Rng.Intn(maxLen), false, nil), "binary", model, r)
 	}
 	c19Rejected(model, r)
 	nHang := cfg.N(4, 40)
 	for i := 0; i < nHang; i++ {
-		c19Case(genHistory(cfg.Rng, 1+cfg.Rng.Intn(6), false, true), "gridn-rejected", model, r)
+		c19Case(genHistory(cfg.Rng, 1+cfg.Rng.Intn(6), false, c19HangUnits), "gridn-rejected", model, r)
+	}
+	// gridn with a positive unit around the minimum: every unit of the pool once
+	// (quick: all but 0.001, whose 200 000 lines take seconds to write), binary only.
+	// The runs that are expected to be killed by the timeout are started together.
+	pool := c19TinyUnits
+	if cfg.Tier != "thorough" {
+		pool = pool[:len(pool)-1]
+	}
+	var hs [][]gcmd
+	for i := range pool {
+		hs = append(hs, genHistory(cfg.Rng, 1+cfg.Rng.Intn(5), false, pool[i:i+1]))
+	}
+	if !c19BoundInSource() {
+		var wg sync.WaitGroup
+		for _, h := range hs {
+			if u, tiny := cmdsTiny(cmdsSX(h)); tiny && u < 1e-4 {
+				wg.Add(1)
+				go func(prog string) { defer wg.Done(); runBinary(prog, 3) }(evyProgram(h)) // result is cached
+			}
+		}
+		wg.Wait()
+	}
+	for _, h := range hs {
+		c19Case(h, "gridn-tiny", model, r)
 	}
 }
 
